@@ -3,8 +3,10 @@
 use crate::harness::{Outcome, SharedCtx};
 
 pub mod session;
+pub mod c02;
 pub mod c03;
 pub mod c04;
+pub mod hostile;
 pub mod c10;
 pub mod c11;
 pub mod c12;
@@ -51,8 +53,14 @@ pub struct ScenarioDef {
 
 pub fn registry() -> Vec<ScenarioDef> {
     vec![
+        ScenarioDef { property: "C02", name: "c02/negotiation", run: c02::run, quick_cases: 8_000, thorough_cases: 1_000_000, needs_tls: true },
         ScenarioDef { property: "C03", name: "c03/session", run: c03::run, quick_cases: 4_000, thorough_cases: 600_000, needs_tls: true },
         ScenarioDef { property: "C04", name: "c04/session", run: c04::run, quick_cases: 4_000, thorough_cases: 600_000, needs_tls: true },
+        ScenarioDef { property: "C05", name: "c05/setup", run: hostile::run_c05, quick_cases: 16_000, thorough_cases: 3_000_000, needs_tls: true },
+        ScenarioDef { property: "C05", name: "c05/parsers", run: hostile::run_c05_direct, quick_cases: 100_000, thorough_cases: 3_000_000, needs_tls: false },
+        ScenarioDef { property: "C06", name: "c06/session", run: hostile::run_c06, quick_cases: 12_000, thorough_cases: 2_000_000, needs_tls: true },
+        ScenarioDef { property: "C07", name: "c07/nla", run: hostile::run_c07, quick_cases: 12_000, thorough_cases: 2_000_000, needs_tls: true },
+        ScenarioDef { property: "C07", name: "c07/parsers", run: hostile::run_c07_direct, quick_cases: 100_000, thorough_cases: 3_000_000, needs_tls: false },
         ScenarioDef { property: "C10", name: "c10/fastpath", run: c10::run, quick_cases: 3_000, thorough_cases: 400_000, needs_tls: true },
         ScenarioDef { property: "C11", name: "c11/input", run: c11::run, quick_cases: 3_000, thorough_cases: 400_000, needs_tls: true },
         ScenarioDef { property: "C12", name: "c12/automaton", run: c12::run, quick_cases: 2_500, thorough_cases: 300_000, needs_tls: true },
